@@ -22,7 +22,11 @@ pub mod ax {
   pub broadcast proof fn ax_obeys_div() ensures #[trigger] <f32 as DivSpec<f32>>::obeys_div_spec() { admit(); }
   pub broadcast proof fn ax_div_req(a: f32, b: f32) ensures #[trigger] DivSpec::div_req(a, b) { admit(); }
   pub broadcast proof fn ax_div(a: f32, b: f32) ensures rv(b) != 0real ==> rv(#[trigger] DivSpec::div_spec(a, b)) == rv(a) / rv(b) { admit(); }
+  pub broadcast proof fn ax_obeys_neg() ensures #[trigger] <f32 as NegSpec>::obeys_neg_spec() { admit(); }
+  pub broadcast proof fn ax_neg_req(a: f32) ensures #[trigger] NegSpec::neg_req(a) { admit(); }
+  pub broadcast proof fn ax_neg(a: f32) ensures rv(#[trigger] NegSpec::neg_spec(a)) == -rv(a) { admit(); }
   pub broadcast proof fn ax_lit0() ensures #[trigger] rv(0.0f32) == 0real { admit(); }
+  pub broadcast proof fn ax_lit_neg0() ensures #[trigger] rv(-0.0f32) == 0real { admit(); }
   pub broadcast proof fn ax_lit1() ensures #[trigger] rv(1.0f32) == 1real { admit(); }
   pub broadcast proof fn ax_lit_milli() ensures #[trigger] rv(1e-3f32) == 1real / 1000real { admit(); }
   pub broadcast proof fn ax_obeys_pcmp() ensures #[trigger] <f32 as PartialOrdSpec<f32>>::obeys_partial_cmp_spec() { admit(); }
@@ -31,7 +35,7 @@ pub mod ax {
   pub broadcast proof fn ax_obeys_eq() ensures #[trigger] <f32 as PartialEqSpec<f32>>::obeys_eq_spec() { admit(); }
   pub broadcast proof fn ax_eq(a: f32, b: f32) ensures (#[trigger] PartialEqSpec::eq_spec(&a, &b)) == (rv(a) == rv(b)) { admit(); }
   pub broadcast group float_real { ax_obeys_add, ax_add_req, ax_add, ax_obeys_sub, ax_sub_req, ax_sub, ax_obeys_mul, ax_mul_req, ax_mul, lemma_rmul_comm,
-      ax_obeys_div, ax_div_req, ax_div, ax_lit0, ax_lit1, ax_lit_milli, ax_obeys_pcmp, ax_pcmp, ax_obeys_eq, ax_eq }
+      ax_obeys_div, ax_div_req, ax_div, ax_obeys_neg, ax_neg_req, ax_neg, ax_lit0, ax_lit_neg0, ax_lit1, ax_lit_milli, ax_obeys_pcmp, ax_pcmp, ax_obeys_eq, ax_eq }
 }
 pub use ax::*;
 
